@@ -12,9 +12,10 @@ PACK = 60
 def generate(tier, seed):
     g3 = C.run_tlc("Gen_Project", "Gen_Project_graphs3", workers=4, timeout=900, heap="8g").json_lines("REPLAY")
     ge = C.run_tlc("Gen_Project", "Gen_Project_edges", workers=4, timeout=900, heap="8g").json_lines("REPLAY")
-    if len(g3) < 3000 or len(ge) < 3000:
-        raise C.ToolError("graph generation incomplete: %d %d" % (len(g3), len(ge)))
-    total = (len(g3), len(ge))
+    gl = C.run_tlc("Gen_Project", "Gen_Project_layouts", workers=4, timeout=900, heap="8g").json_lines("REPLAY")
+    if len(g3) < 3000 or len(ge) < 3000 or len(gl) < 2560:
+        raise C.ToolError("graph generation incomplete: %d %d %d" % (len(g3), len(ge), len(gl)))
+    total = (len(g3), len(ge), len(gl))
     rnd = random.Random(seed)
     if tier == "quick":
         g3 = rnd.sample(g3, 500)
@@ -30,7 +31,22 @@ def generate(tier, seed):
                 seen.update(ks)
                 pick.append(c)
         ge = pick
-    return g3 + ge, total
+        # layouts: every (shape, root site) with every relative order of the four placements (which of cmd/A/B/C
+        # come earlier, together or later): 75 weak orders x 5 shapes x 2 sites, one assignment each
+        seen = set()
+        pick = []
+        rnd.shuffle(gl)
+        for c in gl:
+            pl = c["place"]
+            ranks = sorted(set(pl.values()))
+            weak = tuple(ranks.index(pl[k]) for k in ("cmd", "A", "B", "C"))
+            shape = tuple(sorted((n, tuple(sorted(e["to"] for e in c["edges"][n]))) for n in c["edges"]))
+            k = (weak, shape, c["roots"][0]["site"])
+            if k not in seen:
+                seen.add(k)
+                pick.append(c)
+        gl = pick
+    return g3 + ge + gl, total
 
 
 def observe(d, cases, modes=("none", "zod"), repeats=1):
@@ -41,13 +57,20 @@ def observe(d, cases, modes=("none", "zod"), repeats=1):
 
     def work(job):
         pi, pk, mode, rep = job
-        src = [PC.PRELUDE, "use tauri::Emitter;\n"]
+        head = PC.PRELUDE + "use tauri::Emitter;\n"
+        src = [head]
+        files = {}
         meta = []
         for i, g in pk:
-            text, types, roots, pre = PC.graph_source(i, g)
-            src.append(text)
+            parts, types, roots, pre = PC.graph_source(i, g)
+            if g.get("place") and len(g["place"]) > 1:
+                for slot, text in parts.items():
+                    files[PC.SLOT_PATHS[slot] % i] = head + text
+            else:
+                src.append("\n".join(parts[k] for k in sorted(parts)))
             meta.append((i, types, roots, pre))
-        b, res, texts = PC.run_project(d, "g%d-%s-%d" % (pi, mode, rep), {"src/lib.rs": "\n".join(src)}, mode=mode)
+        files["src/lib.rs"] = "\n".join(src) + "\n#[tauri::command]\npub fn pack_anchor() {}\n"
+        b, res, texts = PC.run_project(d, "g%d-%s-%d" % (pi, mode, rep), files, mode=mode)
         out = []
         for i, types, roots, pre in meta:
             out.append({"idx": i, "mode": mode, "types": types, "roots": roots, "declared": PC.declared_types(b, pre),
